@@ -63,6 +63,51 @@ func (r *rawConn) do(req kmsg.Request) (kmsg.Response, error) {
 	return resp, nil
 }
 
+// register sends AddPartitionsToTxn v3 for the partition (pre-KIP-890 shape):
+// the transaction has the partition registered, nothing is appended.
+func (r *rawConn) register(txid string, pid int64, epoch int16) error {
+	req := kmsg.NewPtrAddPartitionsToTxnRequest()
+	req.Version = 3
+	req.TransactionalID = txid
+	req.ProducerID = pid
+	req.ProducerEpoch = epoch
+	rt := kmsg.NewAddPartitionsToTxnRequestTopic()
+	rt.Topic = topic
+	rt.Partitions = []int32{0}
+	req.Topics = append(req.Topics, rt)
+	kresp, err := r.do(req)
+	if err != nil {
+		return err
+	}
+	resp := kresp.(*kmsg.AddPartitionsToTxnResponse)
+	if len(resp.Topics) != 1 || len(resp.Topics[0].Partitions) != 1 {
+		return errors.New("AddPartitionsToTxn: unexpected response shape")
+	}
+	if c := resp.Topics[0].Partitions[0].ErrorCode; c != 0 {
+		return fmt.Errorf("AddPartitionsToTxn: error code %d", c)
+	}
+	return nil
+}
+
+// endTxn sends EndTxn v4 (no epoch bump: the kgo client of that transactional
+// id stays usable).
+func (r *rawConn) endTxn(txid string, pid int64, epoch int16, commit bool) error {
+	req := kmsg.NewPtrEndTxnRequest()
+	req.Version = 4
+	req.TransactionalID = txid
+	req.ProducerID = pid
+	req.ProducerEpoch = epoch
+	req.Commit = commit
+	kresp, err := r.do(req)
+	if err != nil {
+		return err
+	}
+	if c := kresp.(*kmsg.EndTxnResponse).ErrorCode; c != 0 {
+		return fmt.Errorf("EndTxn: error code %d", c)
+	}
+	return nil
+}
+
 var crc32c = crc32.MakeTable(crc32.Castagnoli)
 
 // rawRec is one record of the broker's log.
